@@ -35,6 +35,7 @@ type LimitsCase struct {
 	Sentinel string `json:"sentinel,omitempty"`
 	// structural modes
 	Depth  int  `json:"depth,omitempty"`   // recursion depth / nesting depth / loop turns / expansions
+	Delta  int  `json:"delta,omitempty"`   // physlogic mode: logical limit = physical limit + Delta
 	MaxLim int  `json:"max_lim,omitempty"` // sweep the limit over [1,MaxLim]
 	Caught bool `json:"caught,omitempty"`  // program wraps the overflow in handler-bind
 	// entry mode: Prelude is loaded fault-free, then the host calls an entry
@@ -80,7 +81,17 @@ func (limitsEngine) Decode(raw []byte) (any, error) {
 
 func (limitsEngine) Gen(r *Rand, tier string) any {
 	c := &LimitsCase{}
-	switch r.Pick([]int{70, 6, 6, 6, 6, 6, 14, 5}) {
+	switch r.Pick([]int{70, 6, 6, 6, 6, 6, 14, 5, 4}) {
+	case 8:
+		// both stack limits configured, the logical one at, just below or just
+		// above the physical one: whichever fires first, the physical bound holds
+		c.Mode = "physlogic"
+		c.Depth = r.Range(1, 14)
+		c.Caught = r.Bool()
+		c.Delta = []int{-2, -1, 0, 1, 2, 5}[r.Intn(6)]
+		c.Knobs.TRO = PickStr(r, []string{"", "debugger", "profiler"})
+		c.Forms = structProgram(r, "phys", c.Depth, c.Caught)
+		c.MaxLim = c.Depth*5 + 14
 	case 7:
 		c.Mode = "logical"
 		c.Depth = r.Range(1, 16)
@@ -920,6 +931,8 @@ func (e limitsEngine) runStruct(c *LimitsCase, st *Stats) *Violation {
 	switch c.Mode {
 	case "phys":
 		hi = ref.w.MaxFrames + 3
+	case "physlogic":
+		hi = ref.w.MaxFrames + 6
 	case "nest":
 		hi = ref.w.MaxNest + 3
 	}
@@ -941,6 +954,9 @@ func (e limitsEngine) runStruct(c *LimitsCase, st *Stats) *Violation {
 			k.MaxMacro = lim
 		case "logical":
 			k.MaxLogic = lim
+		case "physlogic":
+			k.MaxPhys = lim
+			k.MaxLogic = max(1, lim+c.Delta)
 		}
 		run, err := runLimits(k, hugeBudget, 0, c.Forms, nil)
 		if err != nil {
@@ -1044,7 +1060,7 @@ func (e limitsEngine) runStruct(c *LimitsCase, st *Stats) *Violation {
 			// evaluation of the level around it
 			return fail(Violf("nest-limit-not-enforced", "an expression nested %d levels deep (some through nested loads) finished under MaxEvalNesting %d", c.Depth, lim))
 		}
-		if c.Mode == "phys" && !overflowed && run.w.MaxFrames > lim {
+		if (c.Mode == "phys" || c.Mode == "physlogic") && run.w.MaxFrames > lim {
 			return fail(Violf("bound-exceeded", "physical limit %d: observed %d frames", lim, run.w.MaxFrames))
 		}
 	}
